@@ -261,7 +261,7 @@ def c15(c):
              "written) only to identify states. Limits 17..254: fill/abort/release-every-kth/refill/cursor-wrap histories plus random histories. "
              "Part B: random histories through rlbox_sandbox::get_app_pointer on the ILP32 model (4 KiB region, limit 4095, filled completely) "
              "and noop backends with six owner objects being registered, moved, move-assigned onto empty and live owners, unregistered, destroyed. "
-             "distinct_nontrivial = explored states + directed limits + distinct owner histories.",
+             "distinct_nontrivial = explored states + directed limits + distinct owner histories. Owner histories include destroy_sandbox + create_sandbox of the sandbox object with live owners (tokens keep resolving, stay unique; pointers then formed from tokens relative to the current incarnation).",
         exhaustive=False,
         exhaustive_subspaces=["complete reachable state space of the 8-bit token table for each limit 1..12 (quick) / 1..16 (thorough)"],
         assumptions=["-fno-access-control is used in this one TU to read the private cursor for state identification only"]))
@@ -305,6 +305,12 @@ def c04(c):
         runs += sliced(nm, 2 if not c.thorough else 4)
         if n in ("ilp32", "ilp32f"):
             runs.append(dict(unit=nm, label=nm + "[4GiB]", args=["big"], slice=7, nslices=8))
+    # the documented debug configuration (RLBOX_ENABLE_DEBUG_ASSERTIONS): the conversion code carries assertions on the sandbox /
+    # example pointer it is given that exist only there; every verdict must be the same as in the release configuration
+    for n in ["ilp32f", "wide"]:
+        nm = "c04_%s_dbgassert" % n
+        units.append(dict(name=nm, srcs=[D + "c04_ptrconv.cpp"], build="asan0", defs=EXC + ["CFG=vsbx_" + n, "RLBOX_ENABLE_DEBUG_ASSERTIONS"]))
+        runs += sliced(nm, 1 if not c.thorough else 4)
     # host-ABI part: the noop backend's pointer representation is a pointer type, which selects other branches of the conversion code
     units.append(dict(name="c04_hostptr", srcs=[D + "c04_hostptr.cpp"], build="asan0", defs=EXC, libs=["-ldl"]))
     runs.append(dict(unit="c04_hostptr", label="c04_hostptr[noop]"))
@@ -322,7 +328,7 @@ def c04(c):
              "assign_raw_pointer); oracle = base of the owning instance + offset, guest side observed in raw memory / guest event log / backend "
              "free log; offset 0 <-> null on every path. Per round one instance gets ALL offsets 1..65535 through cell load/store and the "
              "context path. MASK and FINDER translation styles, ILP32 / WIDE / HOST ABIs; the two ILP32 configurations "
-             "additionally with 4 GiB regions (first MiB and last page committed) and offsets around 2^31 and up to 2^32-1.",
+             "additionally with 4 GiB regions (first MiB and last page committed) and offsets around 2^31 and up to 2^32-1. FINDER and WIDE repeated with RLBOX_ENABLE_DEBUG_ASSERTIONS (same verdicts required).",
         exhaustive=False,
         exhaustive_subspaces=["all 65535 non-null offsets of the 64 KiB region through load-cell, store-cell and UNSAFE_sandboxed, for one instance per round"],
         assumptions=["offset 0 is the null representation (the first byte of the region is never handed out as an object)"]))
@@ -337,6 +343,9 @@ def c03(c):
         units.append(dict(name=nm, srcs=[D + "c03_ptrinv.cpp"], build="asan0", defs=EXC + ["CFG=vsbx_" + n]))
         runs.append(dict(unit=nm, label=nm + "_hostile", args=[0]))
         runs += sliced(nm, 2 if not c.thorough else 4, label=nm + "_chains", args=[1])
+    # the allocator's answer (sandboxed code) on a backend whose translation confines nothing by itself
+    units.append(dict(name="c03_alloc", srcs=[D + "c03_alloc.cpp"], build="asan", defs=EXC))
+    runs.append(dict(unit="c03_alloc", label="c03_alloc[ilp32m,unconfined]"))
     units.append(dict(name="c03_sweep", srcs=[D + "c03_ptrinv.cpp"], build="plain", defs=EXC + ["CFG=vsbx_ilp32f"]))
     runs += sliced("c03_sweep", 4 if not c.thorough else c.ncpu - 1, label="c03_sweep", args=[2])
     return dict(units=units, runs=runs, evidence=dict(
@@ -349,7 +358,7 @@ def c03(c):
              "interior; after every step either an abort was observed or the pointer is null or inside the region of the sandbox it came from; "
              "(c) representations 0..2^32-1 through load-cell and load-array-element (stride 509 quick, every value thorough). "
              "Dereferences whose pointee straddles the region end are not generated (no prescribed outcome); address computations on them are. "
-             "distinct_nontrivial = distinct (instance, representation) pairs + distinct chain histories + swept representations.",
+             "distinct_nontrivial = distinct (instance, representation) pairs + distinct chain histories + swept representations. Hostile allocator answers (c03_alloc, ILP32 mask-membership model with unconfined translation): representations outside the region, before its start, straddling its end, wrapping; the address malloc_in_sandbox hands out must be null or inside the region, else abort.",
         exhaustive=False,
         exhaustive_subspaces=["thorough tier only: all 2^32 guest representations through the memory-cell and array-element load positions"],
         assumptions=["inside-ness of a translated representation is the model backend's masking guarantee; the check tests RLBox's plumbing (translation applied, right instance)"]))
@@ -366,6 +375,10 @@ def c07(c):
             units.append(dict(name=nm, srcs=[D + "c07_memaccess.cpp"], build=b, defs=EXC + ["CFG=vsbx_" + n]))
             for part in range(4):
                 runs.append(dict(unit=nm, label="%s[p%d]" % (nm, part), args=[part], count_distinct=(tag == "asan")))
+    # debug configuration (RLBOX_ENABLE_DEBUG_ASSERTIONS): same verdicts required; quick: the pointer and struct-field part only
+    units.append(dict(name="c07_ilp32_dbgassert", srcs=[D + "c07_memaccess.cpp"], build="asan0", defs=EXC + ["CFG=vsbx_ilp32", "RLBOX_ENABLE_DEBUG_ASSERTIONS"]))
+    for part in ([3] if not c.thorough else range(4)):
+        runs.append(dict(unit="c07_ilp32_dbgassert", label="c07_ilp32_dbgassert[p%d]" % part, args=[part], count_distinct=False))
     if c.thorough:
         units.append(dict(name="c07_ilp32_clang", srcs=[D + "c07_memaccess.cpp"], build="clang-asan", defs=EXC + ["CFG=vsbx_ilp32"]))
         for part in range(4):
@@ -379,7 +392,7 @@ def c07(c):
              "range / array / struct pointer, index, struct field): footprint holds the reference encoding, surroundings are random, everything "
              "else poisoned, the value must decode exactly. Offsets: first object of the region, object ending at the last byte (guard page "
              "behind), 8-aligned interior (ASan build), every alignment 0..15 (plain build). 15 primitive types + enum, data and function "
-             "pointers, arrays, pointer arrays, 11 struct fields; ABIs ILP32, NARROW, WIDE. bool/enum cells only ever hold valid encodings.",
+             "pointers, arrays, pointer arrays, 11 struct fields; ABIs ILP32, NARROW, WIDE. bool/enum cells only ever hold valid encodings. Also char16_t, char32_t, wchar_t cells; ILP32 repeated with RLBOX_ENABLE_DEBUG_ASSERTIONS.",
         exhaustive=False,
         assumptions=["ASan left-edge granularity is 8 bytes (exact for 8-aligned footprints); the byte diff is exact regardless",
                      "enumerations keep their host representation (RLBox's ABI description has no enum entry)"]))
@@ -450,7 +463,7 @@ def c10(c):
              "wholly outside every region): illegal => abort / allocation failure; legal => no abort and exactly the specified effect (region "
              "byte diff, memcmp sign, delivered content); everything outside the given ranges is ASan-poisoned during the call; empty requests are "
              "not judged except that they must not write. Where host and guest element sizes differ the oracle requires abort only if illegal "
-             "under both readings and success only if legal under both.",
+             "under both readings and success only if legal under both. copy_and_verify_range is additionally judged by element semantics on the WIDE and NARROW models (char, short, char16_t, char32_t, wchar_t, long, double; source in the interior and flush against the end of the region): the verifier receives exactly the count elements held.",
         exhaustive=False,
         assumptions=["overlapping source/destination inside the sandbox is not driven (std::memcpy semantics undefined)"]))
 
@@ -472,6 +485,13 @@ def c13(c):
     for b, bn in enumerate(["model", "noop", "dylib"]):
         ns = 2 if not c.thorough else (c.ncpu - 2 if bn == "model" else 5)
         runs += sliced("c13_callbacks", ns, label="c13_" + bn, args=[b], env=guest_env(c))
+    # concurrent histories on one sandbox (threads churn disjoint sets of functions; yields at every lock boundary): thread sanitizer
+    # build for the races, plain and address-sanitizer builds for the ownership oracle and heap corruption of the key list
+    for b in ("tsan", "plain1", "asan"):
+        nm = "c13_concurrent_" + b
+        units.append(dict(name=nm, srcs=[D + "c13_concurrent.cpp"], build=b, defs=EXC))
+        for T, rep in ([(4, 0), (2, 1)] if not c.thorough else [(4, 0), (2, 1), (8, 2), (3, 3), (6, 4), (4, 5)]):
+            runs.append(dict(unit=nm, label="%s[%dthreads,rep%d]" % (nm, T, rep), args=[T, rep]))
     return dict(units=units, runs=runs, evidence=dict(
         level="exploration",
         rule="history = sequence over {register f_i into owner j (move-assign onto whatever j holds), unregister, destroy owner, move-construct, "
@@ -483,7 +503,7 @@ def c13(c):
              "expected abort ends a history. Random: histories of 60 (quick) / 300 (thorough) steps with pools smaller than, nearly as large as and "
              "larger than the entry-point table, plus capacity accounting probes (the backend must accept exactly capacity-minus-live more "
              "registrations) and a complete fill of the table. Backends: model (8 entry points), noop and dylib (64). "
-             "distinct_nontrivial = replayed exhaustive sequences + distinct random histories.",
+             "distinct_nontrivial = replayed exhaustive sequences + distinct random histories. Concurrent histories on one noop sandbox (c13_concurrent): 2..8 threads register, duplicate-register, unregister, destroy and overwrite owners of disjoint function sets with PRNG yields after every lock acquisition/release; per-thread single-threaded oracle on own functions, whole-set registrability oracle at barriers; TSan, ASan, plain builds; schedules sampled, contended acquisitions counted.",
         exhaustive=False,
         exhaustive_subspaces=["all operation sequences of length 3 (quick) / 4 (thorough) over 2 functions and 3 owners, per backend"],
         assumptions=["owners whose sandbox incarnation was destroyed are not judged, only that unregistering/destroying them is harmless",
@@ -503,6 +523,11 @@ def c14(c):
         nm = "c14_staticinit_" + b.replace("-", "_")
         units.append(dict(name=nm, srcs=[D + "c14_staticinit.cpp"], build=b, defs=EXC))
         runs.append(dict(unit=nm, label=nm))
+    # histories that end after main(): owners with static storage duration / atexit handlers destroy the sandbox during shutdown
+    for b in ("asan", "plain") + (("clang-plain", "asan0") if c.thorough else ()):
+        nm = "c14_teardown_" + b.replace("-", "_")
+        units.append(dict(name=nm, srcs=[D + "c14_teardown.cpp"], build=b, defs=EXC))
+        runs.append(dict(unit=nm, label=nm))
     return dict(units=units, runs=runs, evidence=dict(
         level="exploration",
         rule="history = sequence over {create over library 1, create over library 2, create with injected failure, destroy, malloc, free, register, "
@@ -514,7 +539,7 @@ def c14(c):
              "destroyed, application) region exactly as the model does. Exhaustive: all sequences of length 4 (quick) / 5 (thorough) on 2 objects "
              "and length 3 / 4 on 3 objects; random histories beyond; dylib backend: create/destroy/invoke over two shared objects exporting the "
              "same names (each call first in a forked child). After a failed creation both outcomes of a retry are accepted. "
-             "Invocation/app-pointer/translation outside the lifetime window are not driven.",
+             "Invocation/app-pointer/translation outside the lifetime window are not driven. Histories that end after main() (c14_teardown): owners with static storage duration (global, function-local static) and atexit handlers, constructed/registered before the library's first use, destroy their sandbox during process shutdown in forked children that leave through exit(); the owner's destructor judges the created-state rules and the parent requires a clean exit.",
         exhaustive=False,
         exhaustive_subspaces=["all operation sequences of length 4 (quick) / 5 (thorough) over 11 operations x 2 sandbox objects, and of length 3 / 4 over 3 objects"],
         assumptions=["an expected abort ends the history"]))
@@ -548,7 +573,7 @@ def c12(c):
              "unsigned long long, data pointer, double+float and void callbacks at boundary/random values (model backend: guest-typed values, abort iff "
              "unrepresentable). (c) nesting invoke->callback->invoke->... across two live sandboxes to depth 0..6 from either side, the guest calling "
              "the callback again after the nested chain returned: the (sandbox, argument) trace seen by the callbacks must be exact. Backends model "
-             "(ILP32, WIDE), noop, dylib (two shared objects); library-provided and embedder-provided TLS.",
+             "(ILP32, WIDE), noop, dylib (two shared objects); library-provided and embedder-provided TLS. The model keeps typed entry points: the machine-level signature (size, float-ness of result and parameters) told to impl_register_callback must be the one sandboxed code calls with; a counted mismatch is a violation.",
         exhaustive=False,
         assumptions=["host-ABI guests (noop, dylib) report what they got back through their return value"]))
 
@@ -578,7 +603,7 @@ def c19(c):
              "call tree prescribes (crossings open at the abort are closed innermost first); with timing enabled each sandbox must hold exactly one "
              "record per crossing, matching it, in completion order. Configurations: IN only, OUT only, both, timing only, all. Backends model "
              "(ILP32) and noop (host ABI: only body aborts can be injected). distinct_nontrivial = distinct tree shapes (abort positions are "
-             "enumerated completely per tree).",
+             "enumerated completely per tree). Incarnations phase: a transition state set once must be carried by every notification in four successive incarnations of the sandbox object.",
         exhaustive=False,
         exhaustive_subspaces=["every abort position (argument conversion of every invocation, body and result conversion of every callback) of every generated tree"],
         assumptions=["aborts are observed in exception mode (RLBOX_USE_EXCEPTIONS), the mode in which a crossing can end by unwinding"]))
@@ -632,7 +657,7 @@ def c08(c):
              "the reference conversion (a wrong value is traced to the neighbouring field it came from); bytes around the image must not change; "
              "each narrowing leaf in turn made unrepresentable must abort (by-value argument observed in a forked child because that marshalling "
              "runs inside noexcept functions). const-qualified scalar fields and arrays of nested structs are not generated (the library cannot "
-             "express them). distinct_nontrivial = (struct, round, offset) cases.",
+             "express them). distinct_nontrivial = (struct, round, offset) cases. Every sixth struct carries an enum class over unsigned long long with values outside int.",
         exhaustive=False,
         assumptions=["x86-64 natural alignment for guest scalars up to 8 bytes (as in wasm32)", "enumerations keep their host representation"]))
 
@@ -677,7 +702,7 @@ def c11(c):
              "abort when an argument is unrepresentable; the tainted result must equal the reference conversion of what the guest returned (abort if "
              "unrepresentable); the sandbox function address taken before/after invocation must be the backend's table representation and invocation "
              "must never go through the internal-representation stub. Backends: model ILP32 and WIDE by name, noop through the static-call path, dylib over two "
-             "shared objects built at check time (interleaved instances, re-creation over the other library, function addresses against an independent dlsym).",
+             "shared objects built at check time (interleaved instances, re-creation over the other library, function addresses against an independent dlsym). The by-value struct has a long, a char, a pointer and a two-element pointer-array field; every generated group contains one signature taking two structs and returning one.",
         exhaustive=False,
         assumptions=["arguments have the parameter's own type (the statement's precondition)"]))
 
@@ -764,7 +789,7 @@ def c18(c):
              "function, invocation reached own library). Monitor state is per thread and merged after join. The second build routes RLBox's lock "
              "macros (RLBOX_USE_CUSTOM_SHARED_LOCK) through a thin wrapper around std::shared_timed_mutex that injects PRNG yields/sleeps before "
              "acquire and after release and counts contended acquisitions. distinct_nontrivial counts distinct (backend, threads, seed) executions "
-             "and their operation totals; schedules are sampled, not enumerated.",
+             "and their operation totals; schedules are sampled, not enumerated. Hand-over phase per run: sandboxes created by the main thread are used and destroyed by workers and vice versa (one user at a time, start/join order the hand-over).",
         exhaustive=False,
         assumptions=["same-sandbox use from several threads is outside the statement and not driven",
                      "ThreadSanitizer only sees races on accesses that happen; the uninstrumented guest .so is outside its view"]))
